@@ -320,8 +320,10 @@ class Server:
                 if t <= 0 or not self._pipeline_notfull.wait(t):
                     raise ServerBacklogFull(len(pipeline), perf_counter() - t0)
 
-            self._input_buffer.put((uid, x))
             pipeline[uid] = fut
+            self._input_buffer.put((uid, x))
+            # The entry must be in the ledger before the input can reach a worker;
+            # otherwise a fast result may get to `_gather_output` first and be dropped.
             # See doc of counterpart methods in `AsyncServer`.
 
         fut.data['t1'] = perf_counter()
@@ -586,8 +588,9 @@ class AsyncServer:
             #     change `pipeline.pop(uid)` in `_gather_output` to `pipeline.pop(uid, None)`;
             # (2) in `call`, protect the calll to `_enqueue` by an `asyncio.shield`.
 
-            self._input_buffer.put((uid, x))
             pipeline[uid] = fut
+            self._input_buffer.put((uid, x))
+            # The entry must be in the ledger before the input can reach a worker.
 
         fut.data['t1'] = perf_counter()  # enqueing finished if `t1` != `t0`
         return fut
